@@ -326,15 +326,8 @@ def run(chk):
     if chk.tier == "thorough":
         vlib.coqchk_stage(chk, "Similari.Props.C16")
 
-    # the model is written for eight lanes: tie to the constant in the source
-    try:
-        src = open(os.path.join(vlib.REPO, "src", "track.rs")).read()
-        m = re.search(r"const\s+FEATURE_LANES_SIZE\s*:\s*usize\s*=\s*(\d+)\s*;", src)
-        if not m or int(m.group(1)) != 8:
-            chk.broken.append("tie: FEATURE_LANES_SIZE in src/track.rs is %s, the model (Model/Feature.v, LANES) is written for 8" % (m.group(1) if m else "missing"))
-    except OSError as e:
-        chk.broken.append("tie: cannot read src/track.rs: %s" % e)
-
+    # (the lane count is tied by the translator: Model/Feature.v takes LANES from gen/Consts.v FEATURE_LANES_SIZE and
+    #  Props/C16.v `lanes_is_eight` stops compiling if the constant in src/track.rs is no longer 8)
     ok, out = vlib.harness_build(["feature"])
     if not ok:
         chk.broken.append("harness build failed:\n" + out[-2000:])
